@@ -3,6 +3,7 @@ import LoraVerif.Props.TieA.C13
 import LoraVerif.Props.TieA.C13Sx127
 import LoraVerif.Props.TieA.C13Sx127Mod
 import LoraVerif.Props.TieA.C13E
+import LoraVerif.Props.TieA.C13EWl
 import LoraVerif.Props.TieA.C13ECal
 import LoraVerif.Props.TieA.C13ECh
 /-!
